@@ -82,6 +82,80 @@ let iop_of = function
 let gcd_zero = P "Undocumented:thegreatestcommondivisor"
 
 (* ---------------------------------------------------------------- integers *)
+(* the Repr-level as-is models of the ownership arms (Forms/FormsMul.v, FormsDiv.v, Int/BitsKernels.v;
+   64-bit words): each form's answer is also compared with what the model of ITS arm computes
+   (asis=same|diff statistic).  The word-level multipliers / dividers are only run below a work bound. *)
+module Arms = struct
+  let w64 = Zar.of_int 64
+  let nwords v = (Zar.numbits v + 63) / 64
+  let small a b = let la = nwords a and lb = nwords b in la * lb <= 40000 && la + lb <= 1500
+  let own_of = function
+    | "vv" | "av" | "m_vv" | "ops_vv" | "dra_v" -> OVV
+    | "vr" | "ar" | "m_vr" | "dra_r" -> OVR
+    | "rv" | "m_rv" -> ORV
+    | _ -> ORR
+  let bown_of n = match own_of n with OVV -> VV | OVR -> VR | ORV -> RV | ORR -> RR
+  let tr v = typed_of_value w64 v
+  let br v = to_brepr w64 v
+  let sg v = if Zar.sign v < 0 then Negative else Positive
+  let mag v = Zar.abs v
+  let uval = function Ok r -> Ok (repr_value w64 r) | Panic p -> Panic p | Err e -> Err e | OutOfFuel -> OutOfFuel
+  let sval = function Ok r -> Ok (srepr_value w64 r) | Panic p -> Panic p | Err e -> Err e | OutOfFuel -> OutOfFuel
+  let upair = function
+    | Ok (q, r) -> Ok (repr_value w64 q, repr_value w64 r) | Panic p -> Panic p | Err e -> Err e | OutOfFuel -> OutOfFuel
+  let spair = function
+    | Ok (q, r) -> Ok (srepr_value w64 q, srepr_value w64 r) | Panic p -> Panic p | Err e -> Err e | OutOfFuel -> OutOfFuel
+  (* name of the form -> answer of the model of that arm; memoised per ownership arm *)
+  let memo f = let tbl = Hashtbl.create 4 in
+    fun n -> let o = own_of n in
+      (match Hashtbl.find_opt tbl o with Some v -> v | None -> let v = f n o in Hashtbl.add tbl o v; v)
+  let int_asis kind op a b : (string -> fr) option =
+    let u = kind = "uu" in
+    if not (u || kind = "ii") || not (small a b) then None
+    else match op with
+    | "mul" -> Some (memo (fun _ o -> if u then of_res hx (uval (repr_mul_form w64 o (tr a) (tr b)))
+                                       else of_res hx (sval (ibig_mul_form w64 o (sg a) (tr (mag a)) (sg b) (tr (mag b))))))
+    | "div" -> Some (memo (fun _ o -> if u then of_res hx (uval (i_div_form w64 o (tr a) (tr b)))
+                                       else of_res hx (sval (i_ibig_div_form w64 o (sg a) (tr (mag a)) (sg b) (tr (mag b))))))
+    | "rem" -> Some (memo (fun _ o -> if u then of_res hx (uval (i_rem_form w64 o (tr a) (tr b)))
+                                       else of_res hx (sval (i_ibig_rem_form w64 o (sg a) (tr (mag a)) (sg b) (tr (mag b))))))
+    | "divrem" -> Some (memo (fun _ o -> if u then of_res pair (upair (i_div_rem_form w64 o (tr a) (tr b)))
+                                          else of_res pair (spair (i_ibig_div_rem_form w64 o (sg a) (tr (mag a)) (sg b) (tr (mag b))))))
+    | "and" | "or" | "xor" ->
+        Some (memo (fun n _ -> let o = bown_of n in
+          if u then
+            let f = match op with "and" -> repr_bitand | "or" -> repr_bitor | _ -> repr_bitxor in
+            V (hx (bvalue w64 (f w64 o (br a) (br b))))
+          else
+            let f = match op with "and" -> ibig_bitand_asis | "or" -> ibig_bitor_asis | _ -> ibig_bitxor_asis in
+            V (hx (f w64 o (sg a) (br (mag a)) (sg b) (br (mag b))))))
+    | _ -> None
+  let shift_asis kind op a n : (string -> fr) option =
+    if Zar.numbits n > 20 then None
+    else
+      let owned name = name = "v_n" || name = "v_rn" || name = "a_n" || name = "a_rn" in
+      Some (fun name ->
+        let r = br (mag a) and s = sg a in
+        let v =
+          if kind = "ush" then
+            (match op, owned name with
+             | "shl", true -> bvalue w64 (repr_shl w64 true r n)
+             | "shl", false -> bvalue w64 (repr_shl_ref w64 r n)
+             | _, true -> bvalue w64 (repr_shr w64 r n)
+             | _, false -> bvalue w64 (repr_shr_ref w64 r n))
+          else
+            (match op, owned name with
+             | "shl", true -> ibig_shl_asis w64 s true r n
+             | "shl", false -> ibig_shl_ref_asis w64 s r n
+             | _, true -> ibig_shr_asis w64 s r n
+             | _, false -> ibig_shr_ref_asis w64 s r n) in
+        V (hx v))
+end
+
+let want_of (f : (string -> fr) option) = match f with
+  | Some g -> Some (fun n -> exactly (g n))
+  | None -> None
+
 let judge_int kind args forms =
   let op = List.nth args 0 and a = z (List.nth args 1) and b = z (List.nth args 2) in
   let t = if kind = "uu" then TUBig else TIBig in
@@ -89,13 +163,14 @@ let judge_int kind args forms =
   let has_asg = match kind, op with
     | ("uu" | "ii" | "iu"), _ -> true | "ui", ("rem" | "and") -> true | _ -> false in
   let cls = kind ^ "-" ^ op in
+  let asis = want_of (Arms.int_asis kind op a b) in
   match op with
   | "add" | "sub" | "mul" | "div" | "rem" | "and" | "or" | "xor" ->
       let w = exactly (of_res hx (big_op t (iop_of op) a b)) in
-      verdict ~cls (own4 @ (if has_asg then asg2 else [])) forms (all_same w)
+      verdict ~cls ?asis (own4 @ (if has_asg then asg2 else [])) forms (all_same w)
   | "divrem" ->
       let w = exactly (of_res pair (divrem_spec a b)) in
-      verdict ~cls (met4 @ opsp @ (if both then dra2 else [])) forms (all_same w)
+      verdict ~cls ?asis (met4 @ opsp @ (if both then dra2 else [])) forms (all_same w)
   | "gcd" ->
       let w = if Zar.sign a = 0 && Zar.sign b = 0 then gcd_zero else V (hx (Zar.gcd a b)) in
       verdict ~cls met4 forms (all_same (exactly w))
@@ -172,7 +247,8 @@ let judge_prim kind args forms =
 let judge_shift kind args forms =
   let op = List.nth args 0 and a = z (List.nth args 1) and n = z (List.nth args 2) in
   let v = if op = "shl" then shl_spec a n else shr_spec a n in
-  verdict ~cls:(kind ^ "-" ^ op) [ "v_n"; "r_n"; "v_rn"; "r_rn"; "a_n"; "a_rn" ] forms (all_same (exactly (V (hx v))))
+  let asis = want_of (Arms.shift_asis kind op a n) in
+  verdict ~cls:(kind ^ "-" ^ op) ?asis [ "v_n"; "r_n"; "v_rn"; "r_rn"; "a_n"; "a_rn" ] forms (all_same (exactly (V (hx v))))
 
 let sgn_of s = if s = "neg" then Zar.minus_one else Zar.one
 
